@@ -16,10 +16,13 @@ and runs it under the simulation executor.  Case lines
                                 target ticks reach the inner consumers through the child graph's own scheduling
                                 (graph.cpp nested_schedule_node_impl); every evaluation of the nested node also runs the
                                 active consumers inside (finding KF-C13-nested-ref-param-spurious-eval),
+                              6 CHAINED: if_then_else(c2, if_then_else(c1, A, B), C)   (c1 = source 0, c2 = source 4),
+                              7 CHAINED: if_cmp(cmp2, if_then_else(c1, A, B), C, C)    (cmp2 = source 4: <=0 LT picks the
+                                inner selection, 1 EQ and >=2 GT both pick C),
                               4 if_then_else INSIDE a nested graph whose dereferenced result is exported: ORACLE-ONLY
                                 (not mirrored by the model, see agree(); finding KF-C13-nested-export-lag)
   2 k t payload...            source k ticks at t.  k=0 selector (one integer: if_then_else true iff != 0;
-                              if_cmp <=0 LT, 1 EQ, >=2 GT), k=1..3 targets A,B,C, k=7 poke (wakes consumers 1,2)
+                              if_cmp <=0 LT, 1 EQ, >=2 GT), k=1..3 targets A,B,C, k=4 the OUTER selector of the chained ops, k=7 poke (wakes consumers 1,2)
                               TS payload: v;  TSS: +key add / -key remove;  TSD: pairs key value (value -1 erases)
 
 Observation lines (every shape rendered as a key->value map; scalar = key 0, set members map to 0)
@@ -128,6 +131,8 @@ def build_case(shape, op, cycles, start=1, rng=None, gap=None):
     for i, c in enumerate(cycles):
         if c.get("sel") is not None:
             lines.append([2, 0, t, c["sel"]])
+        if c.get("sel2") is not None:
+            lines.append([2, 4, t, c["sel2"]])
         for k in sorted(c.get("ticks", ())):
             lines.append([2, k, t] + pl.next(k))
         if c.get("poke"):
@@ -168,10 +173,65 @@ def scenarios(shape, op):
     return S
 
 
+def chained_scenarios(op):
+    """timing patterns of the chained selection: I = outer selector value picking the inner branch, O = picking C"""
+    I = 1 if op == 6 else 0
+    O = 0 if op == 6 else 1
+    O2 = 0 if op == 6 else 2          # if_cmp: GT also picks C (same reference as EQ)
+    cy = lambda sel=None, sel2=None, ticks=(), poke=False: {"sel": sel, "sel2": sel2, "ticks": set(ticks), "poke": poke}
+    S = []
+    # the seeded shape: outer quiet on the inner branch, inner flips (to a valid, non-ticking target), then ticks of old/new
+    S.append([cy(ticks=[A, B, C]), cy(sel2=I), cy(sel=1), cy(sel=0), cy(ticks=[A]), cy(ticks=[B]), cy(sel=1), cy(ticks=[B]), cy(ticks=[A])])
+    # inner flips while the outer designates C: nothing may reach; then the outer comes back and finds the new inner target
+    S.append([cy(sel=1, sel2=O, ticks=[A, B, C]), cy(sel=0), cy(ticks=[B]), cy(sel2=I), cy(ticks=[A]), cy(ticks=[B]), cy(sel2=O2), cy(sel2=O)])
+    # outer selects the inner branch before the inner selector ever ticked (keeps nothing / keeps C), inner arrives later
+    S.append([cy(ticks=[A, C]), cy(sel2=I), cy(poke=True), cy(sel=1), cy(sel=1), cy(sel2=I), cy(sel=0), cy(ticks=[B])])
+    S.append([cy(sel2=O, ticks=[C]), cy(sel2=I), cy(ticks=[C]), cy(sel=0), cy(ticks=[B, C]), cy(sel=1), cy(ticks=[A])])
+    # both selectors in one cycle
+    S.append([cy(sel=1, sel2=I, ticks=[A, B, C]), cy(sel=0, sel2=I), cy(sel=1, sel2=O), cy(sel=0, sel2=I), cy(sel=0, sel2=O2), cy(sel=1, sel2=O)])
+    # inner flip together with ticks of old / new target
+    S.append([cy(sel=1, sel2=I, ticks=[A, B]), cy(sel=0, ticks=[A]), cy(sel=1, ticks=[A]), cy(sel=0, ticks=[A, B]), cy(poke=True)])
+    return S
+
+
 # ---------------------------------------------------------------- random generation
+def gen_chained(rng, tier, shape, op):
+    if rng.random() < 0.15:
+        sc = rng.choice(chained_scenarios(op))
+        return build_case(shape, op, sc, start=rng.randint(1, 3), rng=rng if rng.random() < 0.5 else None,
+                          gap=(lambda i: rng.choice([1, 1, 2, 3])))
+    n = rng.randint(4, 10 if tier == "quick" else 15)
+    p_in = rng.choice([0.25, 0.4, 0.6])
+    p_out = rng.choice([0.1, 0.2, 0.4])
+    p_tick = rng.choice([0.2, 0.35, 0.5])
+    p_poke = rng.choice([0.0, 0.15, 0.3])
+    inner_vals = [0, 1]
+    outer_vals = [0, 1] if op == 6 else [0, 0, 1, 2]
+    late_inner = rng.random() < 0.2     # the inner selector stays silent for a while
+    cycles = []
+    last_in = last_out = None
+    first_outer_inner = rng.random() < 0.6
+    for i in range(n):
+        sel = sel2 = None
+        if rng.random() < p_in and not (late_inner and i < n // 3):
+            sel = last_in if (last_in is not None and rng.random() < 0.25) else rng.choice(inner_vals)
+            last_in = sel
+        if rng.random() < p_out or (i == 0 and first_outer_inner):
+            if i == 0 and first_outer_inner:
+                sel2 = 1 if op == 6 else 0
+            else:
+                sel2 = last_out if (last_out is not None and rng.random() < 0.25) else rng.choice(outer_vals)
+            last_out = sel2
+        tk = set(k for k in (A, B, C) if rng.random() < p_tick)
+        cycles.append({"sel": sel, "sel2": sel2, "ticks": tk, "poke": rng.random() < p_poke})
+    return build_case(shape, op, cycles, start=rng.randint(1, 3), rng=rng, gap=(lambda i: rng.choice([1, 1, 1, 2, 4])))
+
+
 def gen(rng, tier, prop):
     shape = rng.choice([0, 0, 1, 1, 2, 2])
-    op = rng.choice([0] * 10 + [1] * 4 + [3] * 3 + [5] * 2 + [4])
+    op = rng.choice([0] * 8 + [1] * 3 + [3] * 3 + [5] * 2 + [6] * 3 + [7] * 2 + [4])
+    if op in (6, 7):
+        return gen_chained(rng, tier, shape, op)
     r = rng.random()
     if r < 0.12:
         sc = rng.choice(scenarios(shape, op))
@@ -237,6 +297,25 @@ def _patterns(max_events):
     return rec(max_events)
 
 
+def _chained_patterns(max_events):
+    opts = []
+    for sel in (None, 1, 0):
+        for sel2 in (None, 1, 0):
+            for a in (0, 1):
+                for b in (0, 1):
+                    size = (sel is not None) + (sel2 is not None) + a + b
+                    if size:
+                        opts.append((size, {"sel": sel, "sel2": sel2, "ticks": set(([A] if a else []) + ([B] if b else [])), "poke": False}))
+
+    def rec(budget):
+        yield []
+        for size, c in opts:
+            if size <= budget:
+                for rest in rec(budget - size):
+                    yield [c] + rest
+    return (p for p in rec(max_events) if p)
+
+
 def enumerate_cases(prop):
     """EVERY timing pattern with at most 6 events over two targets and one selector for TS<Int>
     targets (17166 cases), at most 5 events for TSS / TSD targets (3389 each); if_then_else."""
@@ -252,6 +331,17 @@ def enumerate_cases(prop):
             for sc in scenarios(shape, op):
                 yield build_case(shape, op, sc)
                 yield build_case(shape, op, sc, start=2, gap=lambda i: 2)
+    # chained selection: all scenarios, and EVERY pattern of <= 4 events over {c1=T, c1=F, c2=inner, c2=C, A ticks, B ticks}
+    # after a fixed prefix that makes all three targets valid
+    for shape in (0, 1, 2):
+        for op in (6, 7):
+            for sc in chained_scenarios(op):
+                yield build_case(shape, op, sc)
+    for shape in (0, 1):
+        for pat in _chained_patterns(4):
+            yield build_case(shape, 6, [{"ticks": {A, B, C}}] + pat)
+    for pat in _chained_patterns(3):
+        yield build_case(0, 7, [{"ticks": {A, B, C}}] + pat)
     # consumers inside a nested graph: every pattern of <= 4 events
     for shape in (0, 1, 2):
         for pat in _patterns(4):
@@ -269,8 +359,8 @@ def parse_case(case):
             op = l[4] if len(l) > 4 else 0
     if shape not in (1, 2):
         shape = 0
-    op = op if op in (1, 3, 4, 5) else 0
-    wired = {0, 1, 2, 7} | ({3} if op == 1 else set())
+    op = op if op in (1, 3, 4, 5, 6, 7) else 0
+    wired = {0, 1, 2, 7} | ({3} if op in (1, 6, 7) else set()) | ({4} if op in (6, 7) else set())
     script = {}
     for l in case:
         if l and l[0] == 2 and len(l) >= 4 and 0 <= l[1] < 8:
@@ -285,6 +375,34 @@ def sel_of(op, v):
     if op == 1:
         return A if v <= 0 else (B if v == 1 else C)
     return A if v != 0 else B
+
+
+class Designation:
+    """Which target the selection designates, from the script alone.
+    plain ops: the target picked by the latest selector value.
+    chained ops (6, 7): the outer selector picks either C or "whatever the inner selection designates"; while the
+    picked branch designates nothing yet (inner selector never ticked) the previous designation stays."""
+
+    def __init__(self, op):
+        self.op = op
+        self.cur = None
+        self.inner = None
+        self.c2 = None
+
+    def step(self, ev):
+        if self.op in (6, 7):
+            if 0 in ev:
+                self.inner = A if ev[0][0] != 0 else B
+            if 4 in ev:
+                self.c2 = ev[4][0]
+            if self.c2 is not None:
+                picks_inner = (self.c2 <= 0) if self.op == 7 else (self.c2 != 0)
+                want = self.inner if picks_inner else C
+                if want is not None:
+                    self.cur = want
+        elif 0 in ev:
+            self.cur = sel_of(self.op, ev[0][0])
+        return self.cur
 
 
 def apply_payload(shape, cur, p):
@@ -384,6 +502,7 @@ def _oracle(prop, case, out):
     last_removed = {A: set(), B: set(), C: set()}   # keys removed by the target's most recent tick
     last_tick = {A: 0, B: 0, C: 0}
     cur = None                                  # currently designated target
+    des = Designation(op)
     for t in times:
         ev = script[t]
         before = {k: dict(v) for k, v in contents.items()}
@@ -397,8 +516,7 @@ def _oracle(prop, case, out):
                 valid[k] = True
                 ticked.add(k)
         prev_sel = cur
-        if 0 in ev:
-            cur = sel_of(op, ev[0][0])
+        cur = des.step(ev)
         retarget = cur != prev_sel
         poke = 7 in ev
         force = op in (3, 5) and t == start      # the nested graph holding the consumers evaluates them all in its first cycle
@@ -453,7 +571,7 @@ def _oracle(prop, case, out):
                         fails.append(("nested_ref_param_spurious_eval",
                                       "consumer %d (not connected to poke) evaluated by the poke of its nested node, %s" % (cid, where)))
                     elif at[cid] is not None and not force:
-                        kind = "unselected_leak" if ticked else ("spurious_ref_tick" if 0 in ev else "spurious_eval")
+                        kind = "unselected_leak" if ticked else ("spurious_ref_tick" if (0 in ev or 4 in ev) else "spurious_eval")
                         fails.append((kind, "consumer %d evaluated though neither its target ticked nor the reference changed, %s" % (cid, where)))
                 for cid in (0, 3):
                     r = at[cid]
@@ -464,7 +582,7 @@ def _oracle(prop, case, out):
                 for cid in (1, 2):
                     r = at[cid]
                     if r is not None and not poke and not force:
-                        kind = "unselected_leak" if ticked else ("spurious_ref_tick" if 0 in ev else "spurious_eval")
+                        kind = "unselected_leak" if ticked else ("spurious_ref_tick" if (0 in ev or 4 in ev) else "spurious_eval")
                         fails.append((kind, "consumer %d evaluated without poke though neither its target ticked nor the reference changed, %s" % (cid, where)))
                     if r is not None and (r["mod"] or r["upd"] or r["rem"]):
                         fails.append(("unselected_leak" if ticked else "spurious_modified",
@@ -538,7 +656,8 @@ def _events(case):
     cur = None
     res = dict(cycles=0, retargets=0, retarget_valid_no_tick=0, retarget_with_tick=0, retarget_invalid=0,
                retarget_old_ticks=0, same_selection=0, unselected_ticks=0, selected_ticks=0, pokes=0,
-               retarget_back=0)
+               retarget_back=0, chained_inner_flip_retargets=0)
+    des = Designation(op)
     seen = []
     for t in sorted(script):
         ev = script[t]
@@ -548,10 +667,11 @@ def _events(case):
             valid[k] = True
             lmt[k] = t
         prev = cur
-        if 0 in ev:
-            cur = sel_of(op, ev[0][0])
-            if cur == prev:
-                res["same_selection"] += 1
+        cur = des.step(ev)
+        if (0 in ev or 4 in ev) and cur == prev:
+            res["same_selection"] += 1
+        if op in (6, 7) and 0 in ev and 4 not in ev and cur != prev:
+            res["chained_inner_flip_retargets"] += 1
         if cur != prev:
             res["retargets"] += 1
             if cur in seen:
